@@ -297,6 +297,44 @@ def phase_right(exe, rep, files, tier):
         go, gn, gd = glibc_lookup(T)
         if (go, gn, 1 if gd > 0 else 0) != got:
             rep.violation({"kind": "right", "file": p, "utc": u, "count": T, "reference": "glibc"}, {"offset": go, "abbr": gn, "isdst": gd}, {"offset": got[0], "abbr": got[1], "isdst": got[2]})
+    # mktime direction on the right/ tree: local readings around every transition since 1972 (incl. the seconds between the
+    # transition's count and its UTC value: a bound computed on the wrong scale loses a result there); the valid instants
+    # found by tz-rs == the inverse image under glibc (UTC instant mapped to the count scale independently)
+    req, plan = [], []
+    for p in files:
+        z = read_tzif(p)
+        offs = sorted(set(o for o, _, _ in z["types"]))
+        last = z["trans"][-1][0] if z["trans"] else None
+        req.append("F " + p)
+        plan.append((p, None, z, offs))
+        trans = [t for t, _ in z["trans"] if t >= 78796800]
+        if tier != "thorough":
+            trans = trans[::4]
+        for t in trans:
+            if last is not None and t >= last - 86400 * 2:
+                continue  # the period after the last transition belongs to the footer rule (not in the type list of slim files)
+            for o in offs:
+                for d in (-1, 0, 1, 9, 10, 26, 27, 28, 1800):
+                    c = t + o + d
+                    dt = utc_fields(c)
+                    req.append("L %d %d %d %d %d %d" % (dt.year, dt.month, dt.day, dt.hour, dt.minute, dt.second))
+                    plan.append((p, c, None, None))
+    res = tzmc_dump(exe, req)
+    z, offs = None, None
+    for (p, c, z2, o2), line in zip(plan, res):
+        if c is None:
+            glibc_select(p)
+            z, offs = z2, o2
+            continue
+        rep.add("right_tree_searches")
+        if line.startswith("L ERR"):
+            rep.violation({"kind": "right_mktime", "file": p, "local": c}, "search succeeds", line)
+            continue
+        valid_part = line[2:].partition("|")[0]
+        got = sorted(int(x.split(":")[0]) for x in valid_part.split(",") if x)
+        exp = sorted(set(c - o for o in offs if glibc_lookup(to_count(z["leaps"], c - o))[0] == o))
+        if got != exp:
+            rep.violation({"kind": "right_mktime", "file": p, "local": c, "reference": "glibc"}, exp, got)
     os.environ["TZ"] = "UTC0"
     time.tzset()
     if files:
@@ -522,6 +560,18 @@ def replay(exe, path):
             if got != exp_zi or got != exp_gl:
                 bad = True
             if not exp_zi and gaps[0] != "complex" and got_sk != ([gaps[0]] if gaps[0] else []):
+                bad = True
+        elif c["kind"] == "right_mktime":
+            f, loc = c["file"], c["local"]
+            dt = utc_fields(loc)
+            r = tzmc_dump(exe, ["F " + f, "L %d %d %d %d %d %d" % (dt.year, dt.month, dt.day, dt.hour, dt.minute, dt.second)])
+            z = read_tzif(f)
+            offs = sorted(set(o for o, _, _ in z["types"]))
+            glibc_select(f)
+            exp = sorted(set(loc - o for o in offs if glibc_lookup(to_count(z["leaps"], loc - o))[0] == o))
+            got = sorted(int(x.split(":")[0]) for x in r[1][2:].partition("|")[0].split(",") if x)
+            print("tz-rs:", r[1], "| glibc valid:", exp)
+            if got != exp:
                 bad = True
         elif c["kind"] == "string":
             s_, t = c["tz"], c.get("t", 0)
